@@ -552,8 +552,42 @@ func c14FromRead(unit []*ssa.Function, f *ssa.Function, v ssa.Value, rf *ssa.Cal
 	if ex, ok := v.(*ssa.Extract); ok && ex.Tuple == ssa.Value(rf) && ex.Index == 0 {
 		return true
 	}
+	if depth > 3 {
+		return false
+	}
+	// the result of a function of the unit that reads: every return hands back nil (next to an error) or the content
+	// of that read
+	if call := callOf(v); call != nil && call != rf {
+		k := 0
+		if ex, isEx := v.(*ssa.Extract); isEx {
+			k = ex.Index
+		}
+		g := staticCallee(call)
+		if g == nil || g.Blocks == nil || !c15InUnit(unit, g) {
+			return false
+		}
+		n := 0
+		for _, b := range g.Blocks {
+			r, isRet := blockTerm(b).(*ssa.Return)
+			if !isRet {
+				continue
+			}
+			if k >= len(r.Results) || c15RewrittenResult(r.Results[k]) {
+				return false
+			}
+			rv := spilledRet(r.Results[k])
+			if isNilConst(rv) {
+				continue
+			}
+			n++
+			if !c14FromRead(unit, g, rv, rf, depth+1) {
+				return false
+			}
+		}
+		return n > 0
+	}
 	p, ok := v.(*ssa.Parameter)
-	if !ok || depth > 3 {
+	if !ok {
 		return false
 	}
 	idx := -1
@@ -1015,6 +1049,27 @@ func oneOfLabels(ls []string) func(string) bool {
 func c15Blocked(w *World, fn *ssa.Function, m Mode, sel func(string) bool, depth int) (bool, int, []string) {
 	fi := w.Info(fn)
 	cut := fi.edgesMatching(func(l string, _ *ssa.If, _ bool) bool { return sel(l) })
+	// an edge also carries what the gate composition derives for it from a predicate the condition calls
+	// (`if expired(t)`: the facts every run of the predicate with that answer has passed, its parameters replaced by the
+	// arguments)
+	for _, b := range fn.Blocks {
+		iff, isIf := blockTerm(b).(*ssa.If)
+		if !isIf || len(b.Succs) != 2 {
+			continue
+		}
+		for j := 0; j < 2; j++ {
+			if cut[edgeKey{b.Index, j}] {
+				continue
+			}
+			if comp := fi.composeCond(iff.Cond, j == 0); comp != nil && comp.Complete {
+				for l := range comp.Checked {
+					if sel(l) {
+						cut[edgeKey{b.Index, j}] = true
+					}
+				}
+			}
+		}
+	}
 	n := len(cut)
 	var relied []*ssa.Call
 	if depth < 3 {
@@ -1040,6 +1095,31 @@ func c15Blocked(w *World, fn *ssa.Function, m Mode, sel func(string) bool, depth
 			relied = append(relied, call)
 			for e := range fi.edgesMatching(anyOf("EQ(" + descTailErr(call) + ",nil)")) {
 				cut[e] = true
+			}
+		}
+	}
+	// An exit that forwards the error of a call (`return x509.ParseRevocationList(raw)`) reports success only if that
+	// error is nil: when `EQ(<the call's error>,nil)` is itself a selected fact, such an exit lies behind a selected fact
+	// although no If edge carries it.
+	for _, ci := range allCalls(fn) {
+		call, ok := ci.(*ssa.Call)
+		if !ok {
+			continue
+		}
+		res := call.Call.Signature().Results()
+		if res.Len() == 0 || !isErrorType(res.At(res.Len()-1).Type()) {
+			continue
+		}
+		if sel("EQ(" + descTailErr(call) + ",nil)") {
+			already := false
+			for _, r := range relied {
+				if r == call {
+					already = true
+				}
+			}
+			if !already {
+				n++
+				relied = append(relied, call)
 			}
 		}
 	}
@@ -1494,4 +1574,859 @@ func c15KeyOfURL(a *crlAnchors, fn *ssa.Function, v ssa.Value, url ssa.Value, de
 		}
 	}
 	return n > 0
+}
+
+// ---- C15 (third pass): the expiry function decided on paths and on values ----------------------------------------
+
+// c15RequireOrBlocked: every success of fn lies behind one of the facts `labels` (whole labels). Decided first per
+// exit, as requireOnExits does (each success-capable exit carries one of the facts on every path to it); when the
+// exits do not all carry one, decided on the paths (c15Blocked: once the edges that carry one of the facts are removed
+// — in fn, or inside a module function whose success fn waits for — no success-capable exit is reachable). The two
+// are the same statement, "every path from the entry to a success passes an edge on which one of the facts holds";
+// the second form does not care whether the alternatives meet in one return statement (`if l != nil { …checks… };
+// return nil`) or leave by returns of their own (`if l == nil { return nil }; …checks…; return nil`), nor whether the
+// decision is an if-chain or a switch.
+func (c *Ctx) c15RequireOrBlocked(prefix string, fn *ssa.Function, exits []*ExitSum, name, what string, labels []string) {
+	need := exactNeed(name, what, labels...)
+	all := len(exits) > 0
+	for _, ex := range exits {
+		if _, ok := need.match(ex.Checked); !ok {
+			all = false
+		}
+	}
+	if !all && len(exits) > 0 {
+		c.Evals++
+		if ok, n, _ := c15Blocked(c.W, fn, Mode{Kind: mErr}, oneOfLabels(labels), 0); ok && n >= 1 {
+			c.SeenFn(fn.String())
+			c.OK(prefix+"/"+name, "must-check: every success-capable exit of "+fnName(fn)+" is reachable only through the passing edge of: "+what, c.W.FnPos(fn))
+			return
+		}
+	}
+	c.requireOnExits(prefix, fn, exits, []Need{need})
+}
+
+// c15WrapOperand: the operand index of the one %w verb of a format string (-1 when there is none or more than one, or
+// when the format uses explicit operand indexes or '*' widths, which break the verb-to-operand correspondence).
+func c15WrapOperand(format string) int {
+	idx, op := -1, 0
+	for i := 0; i < len(format); i++ {
+		if format[i] != '%' {
+			continue
+		}
+		i++
+		for i < len(format) && strings.IndexByte("+-# 0123456789.", format[i]) >= 0 {
+			i++
+		}
+		if i >= len(format) {
+			return -1
+		}
+		switch format[i] {
+		case '%':
+			continue
+		case '[', '*':
+			return -1
+		case 'w':
+			if idx >= 0 {
+				return -1
+			}
+			idx = op
+		}
+		op++
+	}
+	return idx
+}
+
+// c15WrappedOperands: the error values the call keeps reachable for errors.Is / errors.Unwrap in its result —
+// fmt.Errorf(constant format with one %w, …): the operand of the %w; errors.Join(…): every operand; a module function
+// that hands back (on every return, as result k) one of its own parameters, itself or wrapped in that way
+// (c15CarriesParam): the argument passed for that parameter.
+func c15WrappedOperands(w *World, call *ssa.Call, k int, depth int) []ssa.Value {
+	args := call.Call.Args
+	switch calleeName(call) {
+	case "fmt.Errorf":
+		if len(args) != 2 || k != 0 {
+			return nil
+		}
+		fc, ok := args[0].(*ssa.Const)
+		if !ok {
+			return nil
+		}
+		format, err := unquote(constString(fc))
+		if err != nil {
+			return nil
+		}
+		sl, ok := args[1].(*ssa.Slice)
+		if !ok {
+			return nil
+		}
+		al, ok := sl.X.(*ssa.Alloc)
+		if !ok {
+			return nil
+		}
+		els := orderedLitElems(al)
+		if i := c15WrapOperand(format); i >= 0 && i < len(els) {
+			return []ssa.Value{unwrap(els[i])}
+		}
+		return nil
+	case "errors.Join":
+		if len(args) != 1 || k != 0 {
+			return nil
+		}
+		sl, ok := args[0].(*ssa.Slice)
+		if !ok {
+			return nil
+		}
+		al, ok := sl.X.(*ssa.Alloc)
+		if !ok {
+			return nil
+		}
+		return orderedLitElems(al)
+	}
+	if g := staticCallee(call); g != nil && g.Blocks != nil && w.IsProductFn(g) && depth < 3 && len(args) == len(g.Params) {
+		if i := c15CarriesParam(w, g, k, depth+1); i >= 0 {
+			return []ssa.Value{args[i]}
+		}
+	}
+	return nil
+}
+
+// c15CarriesParam: every return of g delivers, as result k, one and the same parameter of g — itself, or wrapped so
+// that errors.Is still finds it (c15WrappedOperands), or a phi of such values. -1 if g is not of that kind.
+func c15CarriesParam(w *World, g *ssa.Function, k int, depth int) int {
+	idx := -1
+	var carries func(v ssa.Value, d int) bool
+	carries = func(v ssa.Value, d int) bool {
+		if d > 4 {
+			return false
+		}
+		switch x := v.(type) {
+		case *ssa.Parameter:
+			for i, p := range g.Params {
+				if p == x && (idx < 0 || idx == i) {
+					idx = i
+					return true
+				}
+			}
+			return false
+		case *ssa.Phi:
+			for _, e := range x.Edges {
+				if !carries(e, d+1) {
+					return false
+				}
+			}
+			return len(x.Edges) > 0
+		case *ssa.Call:
+			ops := c15WrappedOperands(w, x, 0, depth)
+			if len(ops) != 1 {
+				return false
+			}
+			return carries(ops[0], d+1)
+		}
+		return false
+	}
+	n := 0
+	for _, b := range g.Blocks {
+		r, ok := blockTerm(b).(*ssa.Return)
+		if !ok {
+			continue
+		}
+		n++
+		if k >= len(r.Results) || c15RewrittenResult(r.Results[k]) || !carries(spilledRet(r.Results[k]), 0) {
+			return -1
+		}
+	}
+	if n == 0 {
+		return -1
+	}
+	return idx
+}
+
+// c15SentinelWays: the ways by which the error value v, used in block `at`, can be — or wrap, so that errors.Is still
+// finds it — the global error `sentinel`; for each way, the facts that hold whenever the value arrives that way:
+//   - the value is loaded from the global in block b: what every path from the entry to b has passed;
+//   - the value is a phi and the sentinel arrives by edge i: the facts of the way it took to the predecessor, and what
+//     every path that enters the phi's block by that edge has passed (phis on a cycle are not followed);
+//   - the value is the result of a wrapping call (c15WrappedOperands) one operand of which arrives as the sentinel: the
+//     facts of that operand's way, and what every path to the call has passed.
+//
+// "An expired list yields the miss sentinel" is then: some value returned arrives as the sentinel by a way whose
+// facts include "now is after NextUpdate" — wherever the wrapping of the error was moved (caller or callee) and
+// whether the function leaves by one return per outcome or collects the outcome in an error local.
+func c15SentinelWays(fi *FnInfo, v ssa.Value, at *ssa.BasicBlock, sentinel string, depth int) []map[string]string {
+	return c15ErrWays(fi, v, at, func(x ssa.Value) bool {
+		un, ok := x.(*ssa.UnOp)
+		if !ok {
+			return false
+		}
+		_, isGlobal := un.X.(*ssa.Global)
+		return isGlobal && desc(un) == sentinel
+	}, depth)
+}
+
+// c15ErrWays: c15SentinelWays for any error value picked out by isTarget (the sentinel; the error a call returned).
+func c15ErrWays(fi *FnInfo, v ssa.Value, at *ssa.BasicBlock, isTarget func(ssa.Value) bool, depth int) []map[string]string {
+	if depth > 6 {
+		return nil
+	}
+	join := func(a, b map[string]string) map[string]string {
+		out := map[string]string{}
+		for l, s := range a {
+			out[l] = s
+		}
+		for l, s := range b {
+			out[l] = s
+		}
+		return out
+	}
+	upTo := func(b *ssa.BasicBlock) map[string]string {
+		if b.Index == 0 {
+			return map[string]string{}
+		}
+		l, ok := fi.mustPassBetween([]int{0}, map[int]bool{b.Index: true})
+		if !ok {
+			return nil
+		}
+		return l
+	}
+	if sv := spilledRet(v); sv != v {
+		if c15RewrittenResult(v) {
+			return nil
+		}
+		v = sv
+	}
+	var out []map[string]string
+	if isTarget(v) {
+		if f := upTo(at); f != nil {
+			out = append(out, f)
+		}
+		return out
+	}
+	switch x := v.(type) {
+	case *ssa.Phi:
+		pb := x.Block()
+		if fi.reachHit([]state{{pb.Index, 0, -1}}, nil, map[int]bool{pb.Index: true}) {
+			return nil
+		}
+		for i, e := range x.Edges {
+			pred := pb.Preds[i]
+			ways := c15ErrWays(fi, e, pred, isTarget, depth+1)
+			if len(ways) == 0 {
+				continue
+			}
+			cut := map[edgeKey]bool{}
+			for _, q := range pb.Preds {
+				for j, sx := range q.Succs {
+					if sx == pb && q != pred {
+						cut[edgeKey{q.Index, j}] = true
+					}
+				}
+			}
+			in, ok := fi.mustPassBetweenCut([]int{0}, map[int]bool{pb.Index: true}, cut)
+			if !ok {
+				continue
+			}
+			for _, wy := range ways {
+				out = append(out, join(wy, in))
+			}
+		}
+	case *ssa.Call, *ssa.Extract:
+		call, k := callOf(v), 0
+		if ex, isEx := v.(*ssa.Extract); isEx {
+			k = ex.Index
+		}
+		if call == nil {
+			return nil
+		}
+		here := upTo(call.Block())
+		if here == nil {
+			return nil
+		}
+		for _, op := range c15WrappedOperands(fi.W, call, k, 0) {
+			for _, wy := range c15ErrWays(fi, op, call.Block(), isTarget, depth+1) {
+				out = append(out, join(wy, here))
+			}
+		}
+	}
+	return out
+}
+
+// c15ReadsSeeStores: every read of the field of the local object — a load of the field, the field's address put to
+// any other use, or a call that is handed the object itself — comes after every store into that field (no store in a
+// block reachable from the read, a store of the same block precedes it). A fact "the list is nil, or it was checked"
+// is about the list the object finally holds only then: a check that runs before the field is filled sees nil and
+// lets everything pass.
+func c15ReadsSeeStores(w *World, al *ssa.Alloc, field string, stores []*ssa.Store) (bool, string) {
+	fi := w.Info(al.Parent())
+	var fst []*ssa.Store
+	for _, st := range stores {
+		if fa, ok := st.Addr.(*ssa.FieldAddr); ok && fa.X == ssa.Value(al) && fieldName(al.Type(), fa.Field) == field {
+			fst = append(fst, st)
+		}
+	}
+	early := func(in ssa.Instruction) (bool, string) {
+		if c15LoadSeesStores(fi, in, fst) {
+			return true, ""
+		}
+		return false, "the " + field + " of the bundle is read at " + w.InstrPos(in) + ", before it is filled"
+	}
+	for _, r := range *al.Referrers() {
+		switch x := r.(type) {
+		case *ssa.FieldAddr:
+			if fieldName(al.Type(), x.Field) != field {
+				continue
+			}
+			for _, rr := range *x.Referrers() {
+				switch y := rr.(type) {
+				case *ssa.DebugRef:
+				case *ssa.Store:
+					if y.Addr != ssa.Value(x) {
+						return false, "the address of the bundle's " + field + " is stored at " + w.InstrPos(y)
+					}
+				default:
+					if ok, why := early(rr); !ok {
+						return false, why
+					}
+				}
+			}
+		case ssa.CallInstruction:
+			if g := staticCallee(x); g != nil && w.IsProductFn(g) {
+				if ok, why := early(x); !ok {
+					return false, why
+				}
+			}
+		}
+	}
+	return true, ""
+}
+
+// ---- C15 (third pass): values handed back by helpers that answer for an absent delta themselves -----------------------
+
+// c15SuccessReturns: the returns of g that can deliver a value to a caller that goes on — the success-capable exits when
+// g has an error result, every return otherwise. ok=false when the exits are not understood.
+func c15SuccessReturns(w *World, g *ssa.Function) ([]*ssa.Return, bool) {
+	var rets []*ssa.Return
+	res := g.Signature.Results()
+	if res.Len() > 0 && isErrorType(res.At(res.Len()-1).Type()) {
+		s := w.Summarize(g, Mode{Kind: mErr})
+		if s == nil || !s.Complete {
+			return nil, false
+		}
+		for _, e := range s.Exits {
+			rets = append(rets, e.Ret)
+		}
+	} else {
+		for _, b := range g.Blocks {
+			if r, ok := blockTerm(b).(*ssa.Return); ok {
+				rets = append(rets, r)
+			}
+		}
+	}
+	return rets, len(rets) > 0
+}
+
+func c15InUnit(unit []*ssa.Function, g *ssa.Function) bool {
+	for _, f := range unit {
+		if f == g {
+			return true
+		}
+	}
+	return false
+}
+
+// c15ParsedFrom: the (non-nil) list v is result 0 of x509.ParseRevocationList applied to the entry field `want` — the
+// call stands here, or in a function of the unit whose result v is: every value that function can hand back on a
+// success-capable exit is nil (no list: not a source) or such a parse result, its argument read with the function's
+// parameters replaced by the arguments of this call (`in` carries the text from the caller's frame into the frame of the
+// decoding function). A helper `parse(raw) { if raw == nil { return nil, nil }; return x509.ParseRevocationList(raw) }`
+// called with entry.DeltaCRL is the guard `if entry.DeltaCRL != nil` of the caller moved into the callee; a helper
+// called for both fields is judged per call.
+func c15ParsedFrom(w *World, unit []*ssa.Function, v ssa.Value, want string, in func(string) string, depth int) bool {
+	if depth > 3 {
+		return false
+	}
+	if ph, ok := v.(*ssa.Phi); ok && depth > 0 {
+		n := 0
+		for _, e := range ph.Edges {
+			if isNilConst(e) {
+				continue
+			}
+			n++
+			if !c15ParsedFrom(w, unit, e, want, in, depth+1) {
+				return false
+			}
+		}
+		return n > 0
+	}
+	call, k := callOf(v), 0
+	if ex, ok := v.(*ssa.Extract); ok {
+		k = ex.Index
+	}
+	if call == nil {
+		return false
+	}
+	if calleeName(call) == "crypto/x509.ParseRevocationList" {
+		return k == 0 && in(desc(call.Call.Args[0])) == want
+	}
+	g := staticCallee(call)
+	if g == nil || g.Blocks == nil || !c15InUnit(unit, g) || len(call.Call.Args) != len(g.Params) {
+		return false
+	}
+	rets, ok := c15SuccessReturns(w, g)
+	if !ok {
+		return false
+	}
+	fr := c15FrameAt(call)
+	inG := func(l string) string { return in(fr.in(l)) }
+	n := 0
+	for _, r := range rets {
+		if k >= len(r.Results) || c15RewrittenResult(r.Results[k]) {
+			return false
+		}
+		rv := spilledRet(r.Results[k])
+		if isNilConst(rv) {
+			continue
+		}
+		n++
+		if !c15ParsedFrom(w, unit, rv, want, inG, depth+1) {
+			return false
+		}
+	}
+	return n > 0
+}
+
+// c15ValueSpellings: how the non-nil values v can be are written, in the frame of the function v stands in: v itself, or
+// — when v is the result of a function of the unit — what that function hands back (nil returns and nil arms of a phi
+// are no values), with its parameters replaced by the arguments of the call. ok=false when some return is not understood.
+func c15ValueSpellings(w *World, unit []*ssa.Function, v ssa.Value, depth int) ([]string, bool) {
+	call, k := callOf(v), 0
+	if ex, ok := v.(*ssa.Extract); ok {
+		k = ex.Index
+	}
+	var g *ssa.Function
+	if call != nil {
+		g = staticCallee(call)
+	}
+	if g == nil || g.Blocks == nil || !c15InUnit(unit, g) || len(call.Call.Args) != len(g.Params) || depth > 2 {
+		return []string{desc(v)}, true
+	}
+	if _, transparent := retExpr(call, k, 6); transparent {
+		return []string{desc(v)}, true // desc() already renders the one expression the helper hands back
+	}
+	rets, ok := c15SuccessReturns(w, g)
+	if !ok {
+		return nil, false
+	}
+	fr := c15FrameAt(call)
+	var out []string
+	for _, r := range rets {
+		if k >= len(r.Results) || c15RewrittenResult(r.Results[k]) {
+			return nil, false
+		}
+		var arms []ssa.Value
+		seen := map[ssa.Value]bool{}
+		var walk func(x ssa.Value)
+		walk = func(x ssa.Value) {
+			if seen[x] {
+				return
+			}
+			seen[x] = true
+			if ph, isPhi := x.(*ssa.Phi); isPhi {
+				for _, e := range ph.Edges {
+					walk(e)
+				}
+				return
+			}
+			if !isNilConst(x) {
+				arms = append(arms, x)
+			}
+		}
+		walk(spilledRet(r.Results[k]))
+		for _, a := range arms {
+			ds, ok := c15ValueSpellings(w, unit, a, depth+1)
+			if !ok {
+				return nil, false
+			}
+			for _, d := range ds {
+				out = append(out, fr.in(d))
+			}
+		}
+	}
+	return out, true
+}
+
+// c15NilWays: the ways by which the value v, used in block `at` of fi's function, can be nil, each with the facts that
+// hold whenever it is nil that way (labels in the frame of fi's function): a nil constant — what every path to its use
+// has passed; a nil arm of a phi — what every path that enters the phi's block by that edge has passed; the result of a
+// function of the unit — the ways its returned value can be nil, read with the parameters replaced by the arguments of
+// the call, and what every path to the call has passed. Values of any other kind are not nil by construction of the
+// rule that asks (a field load `bundle.DeltaCRL.Raw` is "the bytes of the list"). ok=false: not understood.
+func c15NilWays(w *World, unit []*ssa.Function, fi *FnInfo, v ssa.Value, at *ssa.BasicBlock, depth int) ([]map[string]string, bool) {
+	if depth > 4 {
+		return nil, false
+	}
+	upTo := func(b *ssa.BasicBlock) map[string]string {
+		if b.Index == 0 {
+			return map[string]string{}
+		}
+		l, _ := fi.mustPassBetween([]int{0}, map[int]bool{b.Index: true})
+		if l == nil {
+			l = map[string]string{}
+		}
+		return l
+	}
+	join := func(a, b map[string]string) map[string]string {
+		out := map[string]string{}
+		for l, s := range a {
+			out[l] = s
+		}
+		for l, s := range b {
+			out[l] = s
+		}
+		return out
+	}
+	if isNilConst(v) {
+		return []map[string]string{upTo(at)}, true
+	}
+	var out []map[string]string
+	switch x := v.(type) {
+	case *ssa.Phi:
+		pb := x.Block()
+		if fi.reachHit([]state{{pb.Index, 0, -1}}, nil, map[int]bool{pb.Index: true}) {
+			return nil, false
+		}
+		for i, e := range x.Edges {
+			pred := pb.Preds[i]
+			ways, ok := c15NilWays(w, unit, fi, e, pred, depth+1)
+			if !ok {
+				return nil, false
+			}
+			if len(ways) == 0 {
+				continue
+			}
+			cut := map[edgeKey]bool{}
+			for _, q := range pb.Preds {
+				for j, sx := range q.Succs {
+					if sx == pb && q != pred {
+						cut[edgeKey{q.Index, j}] = true
+					}
+				}
+			}
+			inEdge, reach := fi.mustPassBetweenCut([]int{0}, map[int]bool{pb.Index: true}, cut)
+			if !reach {
+				continue
+			}
+			for _, wy := range ways {
+				out = append(out, join(wy, inEdge))
+			}
+		}
+		return out, true
+	case *ssa.Call, *ssa.Extract:
+		call, k := callOf(v), 0
+		if ex, isEx := v.(*ssa.Extract); isEx {
+			k = ex.Index
+		}
+		if call == nil {
+			return nil, true
+		}
+		g := staticCallee(call)
+		if g == nil || g.Blocks == nil || !c15InUnit(unit, g) || len(call.Call.Args) != len(g.Params) {
+			return nil, true
+		}
+		rets, ok := c15SuccessReturns(w, g)
+		if !ok {
+			return nil, false
+		}
+		fr := c15FrameAt(call)
+		gi := w.Info(g)
+		here := upTo(call.Block())
+		for _, r := range rets {
+			if k >= len(r.Results) || c15RewrittenResult(r.Results[k]) {
+				return nil, false
+			}
+			ways, ok := c15NilWays(w, unit, gi, spilledRet(r.Results[k]), r.Block(), depth+1)
+			if !ok {
+				return nil, false
+			}
+			for _, wy := range ways {
+				m := map[string]string{}
+				for l, s := range wy {
+					m[fr.in(l)] = s
+				}
+				out = append(out, join(m, here))
+			}
+		}
+		return out, true
+	}
+	return nil, true
+}
+
+// ---- C15 (third pass): "now is after T", however it is spelled ---------------------------------------------------------
+
+// c15ClockForms: the standard-library spellings of the difference between the clock and a time T. Each form is the
+// printed call with T cut out (prefix, suffix) and the sign of the result when now is after T: +1 for now-T (Compare
+// and Sub with the clock as the receiver, time.Since), -1 for T-now (the clock as the argument, time.Until), 0 for the
+// boolean methods (bool = +1: After(now,T) and Before(T,now) are true exactly when now is after T).
+// time.Since(T) is time.Now().Sub(T) and time.Until(T) is T.Sub(time.Now()); Sub saturates but keeps the sign and is
+// zero only for equal instants, Compare is the sign of that difference: `> 0` on a now-T form and `< 0` on a T-now
+// form are true exactly when time.Now().After(T) is.
+var c15ClockForms = []struct {
+	pre, suf string
+	sign     int
+}{
+	{"call:(time.Time).After(call:time.Now(),", ")", 0},
+	{"call:(time.Time).Before(", ",call:time.Now())", 0},
+	{"call:(time.Time).Compare(call:time.Now(),", ")", +1},
+	{"call:(time.Time).Compare(", ",call:time.Now())", -1},
+	{"call:(time.Time).Sub(call:time.Now(),", ")", +1},
+	{"call:(time.Time).Sub(", ",call:time.Now())", -1},
+	{"call:time.Since(", ")", +1},
+	{"call:time.Until(", ")", -1},
+}
+
+// c15ClockLabels: the edge labels that say "now is after T" (expired) and the ones that say "now is not after T" (fresh).
+func c15ClockLabels(T string) (expired, fresh []string) {
+	for _, f := range c15ClockForms {
+		core := f.pre + T + f.suf
+		switch f.sign {
+		case 0:
+			expired = append(expired, "T("+core+")")
+			fresh = append(fresh, "F("+core+")")
+		case +1:
+			expired = append(expired, "GT("+core+",const:0)")
+			fresh = append(fresh, "LE("+core+",const:0)")
+		case -1:
+			expired = append(expired, "LT("+core+",const:0)")
+			fresh = append(fresh, "GE("+core+",const:0)")
+		}
+	}
+	return
+}
+
+// c15ClockOperand: the time T a label compares the clock with, if the label is one of c15ClockLabels(T).
+func c15ClockOperand(l string) (string, bool) {
+	_, args := splitTopArgs(l)
+	if len(args) == 0 {
+		return "", false
+	}
+	core := args[0]
+	for _, f := range c15ClockForms {
+		if !strings.HasPrefix(core, f.pre) || !strings.HasSuffix(core, f.suf) || len(core) <= len(f.pre)+len(f.suf) {
+			continue
+		}
+		T := core[len(f.pre) : len(core)-len(f.suf)]
+		if T == "call:time.Now()" || strings.HasPrefix(T, "call:time.Now(),") {
+			continue
+		}
+		ex, fr := c15ClockLabels(T)
+		for _, x := range append(ex, fr...) {
+			if x == l {
+				return T, true
+			}
+		}
+	}
+	return "", false
+}
+
+func labelHasAny(m map[string]string, ls []string) bool {
+	for _, l := range ls {
+		if labelHas(m, l) {
+			return true
+		}
+	}
+	return false
+}
+
+// c15ConsultsClock: the function reads the clock itself.
+func c15ConsultsClock(f *ssa.Function) bool {
+	return len(findCalls(f, "time.Now", "time.Since", "time.Until")) > 0
+}
+
+// c15ExpiryFns: the functions on the way of Get that decide on the clock: a function of the unit (other than Get) that
+// reads the clock and reports by an error — or, when the clock is read by a predicate (`func expired(t time.Time)
+// bool`), the functions of the unit with an error result that call the predicate: the predicate's answer is a
+// condition of theirs, and the gate composition carries its facts (with the parameter replaced by the argument) onto
+// their edges.
+func c15ExpiryFns(unit []*ssa.Function) []*ssa.Function {
+	var out []*ssa.Function
+	seen := map[*ssa.Function]bool{}
+	reportsError := func(f *ssa.Function) bool {
+		res := f.Signature.Results()
+		return res.Len() > 0 && isErrorType(res.At(res.Len()-1).Type())
+	}
+	var add func(f *ssa.Function, depth int)
+	add = func(f *ssa.Function, depth int) {
+		if seen[f] || f == unit[0] || f.Parent() != nil || depth > 2 {
+			return
+		}
+		seen[f] = true
+		if reportsError(f) {
+			out = append(out, f)
+			return
+		}
+		for _, g := range unit {
+			for _, ci := range allCalls(g) {
+				if staticCallee(ci) == f {
+					add(g, depth+1)
+				}
+			}
+		}
+	}
+	for _, f := range unit[1:] {
+		if f.Parent() == nil && c15ConsultsClock(f) {
+			add(f, 0)
+		}
+	}
+	return out
+}
+
+// c15JudgedTime: the time the function compares the clock with, read off the facts of its own branch edges (the
+// condition itself, and what the gate composition derives from a predicate it calls), in block order.
+func c15JudgedTime(fi *FnInfo) string {
+	for _, b := range fi.Fn.Blocks {
+		iff, ok := blockTerm(b).(*ssa.If)
+		if !ok || len(b.Succs) != 2 {
+			continue
+		}
+		for j := 0; j < 2; j++ {
+			ls := []string{condLabel(iff.Cond, j == 0)}
+			if comp := fi.composeCond(iff.Cond, j == 0); comp != nil {
+				ls = append(ls, labelList(comp.Checked)...)
+			}
+			for _, l := range ls {
+				if T, ok := c15ClockOperand(l); ok {
+					return T
+				}
+			}
+		}
+	}
+	return ""
+}
+
+// ---- C14 / C15 (third pass): a step of Get / Set that touches the file system from a helper of the package ---------------
+
+// c15PathIsKeyOfURL: the path value pa, used in function f of the unit of root (Get or Set), is Join(root dir, key(url))
+// for root's own URL parameter: f is root, or is reached from root by calls made once (c15FramePath), the path reads
+// `want` once f's parameters are replaced by the arguments of those calls, and — decided on the values — the key is
+// taken of exactly that parameter of f which, by the same substitution, is root's URL parameter.
+func c15PathIsKeyOfURL(a *crlAnchors, unit []*ssa.Function, root, f *ssa.Function, pa ssa.Value, want string) (bool, string) {
+	fr := c15FramePath(unit, root, f)
+	if fr == nil {
+		return false, desc(pa) + " in " + fnName(f) + ", which " + fnName(root) + " does not reach by calls made once"
+	}
+	if got := fr.in(desc(pa)); got != want {
+		return false, got
+	}
+	urlP := "param:" + root.Params[2].Name()
+	var up *ssa.Parameter
+	for _, p := range f.Params {
+		if p.Type().String() != "string" {
+			continue
+		}
+		if (fr.ident && p == root.Params[2]) || (!fr.ident && fr.in("param:"+p.Name()) == urlP) {
+			if up != nil {
+				return false, desc(pa) + " — two parameters of " + fnName(f) + " are the URL"
+			}
+			up = p
+		}
+	}
+	if up == nil || !c15KeyOfURL(a, f, pa, up, 0) {
+		return false, desc(pa) + " — the key of another string than the URL parameter"
+	}
+	return true, ""
+}
+
+// c15IsErrOf: the value is the error the call returned.
+func c15IsErrOf(call *ssa.Call) func(ssa.Value) bool {
+	return func(x ssa.Value) bool {
+		if x == ssa.Value(call) {
+			return isErrorType(call.Type())
+		}
+		ex, ok := x.(*ssa.Extract)
+		return ok && ex.Tuple == ssa.Value(call) && isErrorType(ex.Type())
+	}
+}
+
+// c15OnlyErrorReturned: every result of the return but the last is a nil constant.
+func c15OnlyErrorReturned(r *ssa.Return) bool {
+	for i := 0; i+1 < len(r.Results); i++ {
+		if !isNilConst(r.Results[i]) {
+			return false
+		}
+	}
+	return len(r.Results) >= 1
+}
+
+// c15UpChain: the value v of function f (reached from the root by the chain of calls of frame fr) as the root handed it
+// in: while v is a parameter of f, it is the argument of f's call one level up. Returns the value and the function it
+// stands in.
+func c15UpChain(fr *c15Frame, f *ssa.Function, v ssa.Value) (ssa.Value, *ssa.Function) {
+	for fr != nil && !fr.ident && fr.call != nil {
+		p, ok := v.(*ssa.Parameter)
+		if !ok {
+			break
+		}
+		idx := -1
+		for i, q := range f.Params {
+			if q == p {
+				idx = i
+			}
+		}
+		if idx < 0 || idx >= len(fr.call.Call.Args) {
+			break
+		}
+		v = fr.call.Call.Args[idx]
+		f = fr.call.Parent()
+		fr = fr.outer
+	}
+	return v, f
+}
+
+// c15WriterCall: the one call of the atomic writer on the way of Set — in Set, or in a function of the package that Set
+// reaches by calls made once and that nothing else in the package calls (so the writer runs for Set's arguments only).
+// nil (with the reason) otherwise.
+func c15WriterCall(w *World, a *crlAnchors, setUnit []*ssa.Function) (*ssa.Call, *c15Frame, string) {
+	if a.WF == nil {
+		return nil, nil, "no atomic writer"
+	}
+	var wcall *ssa.Call
+	n := 0
+	for _, f := range setUnit {
+		for _, ci := range allCalls(f) {
+			if staticCallee(ci) == a.WF {
+				n++
+				wcall, _ = ci.(*ssa.Call)
+			}
+		}
+	}
+	if n != 1 || wcall == nil {
+		return nil, nil, fmt.Sprintf("%d calls of the temp-file-and-rename writer in Set and the functions of the package it calls", n)
+	}
+	fr := c15FramePath(setUnit, a.Set, wcall.Parent())
+	if fr == nil {
+		return nil, nil, "the writer is called in " + fnName(wcall.Parent()) + ", which Set does not reach by calls made once"
+	}
+	for x := fr; x != nil && !x.ident && x.call != nil; x = x.outer {
+		g := staticCallee(x.call)
+		for _, f := range w.FuncsOfPkg("verifier/crl") {
+			for _, ci := range allCalls(f) {
+				if staticCallee(ci) == g && ci != ssa.CallInstruction(x.call) {
+					return nil, nil, fnName(g) + ", which calls the writer, is also called from " + fnName(f)
+				}
+			}
+		}
+		for _, f := range w.FuncsOfPkg("verifier/crl") {
+			for _, b := range f.Blocks {
+				for _, in := range b.Instrs {
+					for _, op := range in.Operands(nil) {
+						if *op == ssa.Value(g) {
+							if ci, isCall := in.(ssa.CallInstruction); !isCall || ci.Common().Value != ssa.Value(g) {
+								return nil, nil, fnName(g) + ", which calls the writer, is used as a value in " + fnName(f)
+							}
+						}
+					}
+				}
+			}
+		}
+	}
+	return wcall, fr, ""
 }
